@@ -59,18 +59,39 @@ theorem caseOnly_classes (fold : Str → Str) {a b : List Tok} (h : CaseOnly fol
 section tok
 variable {E : Env} {fold : Str → Str} {lc uc fc : Char → Char}
 
-theorem isExact_split (v : Str) : isExact v = (doesNotContainAnyAlpha v || v.head? == some '\\') := by
+theorem skip_eq_head (v : Str) :
+    doesNotContainAnyAlpha v = (match v with | [] => false | c :: _ => isQ c) := by
   cases v with
   | nil => rfl
   | cons c r =>
+    simp only [isQ]
     by_cases h1 : c = '"'
     · subst h1; rfl
     · by_cases h2 : c = '\''
       · subst h2; rfl
       · by_cases h3 : c = '\\'
         · subst h3; rfl
-        · simp only [isExact, doesNotContainAnyAlpha, List.head?_cons]
+        · simp only [doesNotContainAnyAlpha]
           split <;> simp_all
+
+/-- AFTER THE REPAIR the values the case rules skip are exactly the values that "compare exactly"
+    (string literals, character literals, extended identifiers) -/
+theorem isExact_eq_skip (v : Str) : isExact v = doesNotContainAnyAlpha v := by
+  rw [isExact_eq_head, skip_eq_head]
+  cases v <;> rfl
+
+/-- an extended identifier is skipped -/
+theorem skip_of_backslash {v : Str} (h : v.head? = some '\\') : doesNotContainAnyAlpha v = true := by
+  cases v with
+  | nil => simp at h
+  | cons c r =>
+    simp only [List.head?_cons, Option.some.injEq] at h
+    subst h; rfl
+
+theorem not_backslash_of_not_skip {v : Str} (h : doesNotContainAnyAlpha v = false) : v.head? ≠ some '\\' := by
+  intro hb
+  rw [skip_of_backslash hb] at h
+  cases h
 
 /-- ONE TOKEN'S VALUE REPLACED by a value that is equal after folding: a case-only change, provided
     the token is a code token and not a literal / extended identifier -/
@@ -126,28 +147,19 @@ theorem getset_eq (l r : List Tok) (j : Nat) (e : Str)
 /-! ### token_case -/
 
 /-- hypotheses on the token a `token_case` rule looks at (token 0 of the region):
-    a code token (the extractor returns tokens of the rule's classes), not an extended identifier
-    (EXCLUDED CASE — the real code does change `\\Ext\\`), and for the `bit_string_literal` rules
-    (which do not skip quoted values) a bit-string value token -/
+    a code token (the extractor returns tokens of the rule's classes), and for the
+    `bit_string_literal` rules (which do not skip quoted values) a bit-string value token.
+    (The former clause "not an extended identifier" is gone: since the repair the analysis skips
+    `\Ext\` itself — `bfull_case_extended_identifier_untouched` in C03.lean.) -/
 structure TokOk (p : Params) (t : Tok) : Prop where
   code : t.isCode = true
-  notExtended : t.val.head? ≠ some '\\'
   bitString : p.name = bitStringLiteral → doesNotContainAnyAlpha t.val = true → t.kind = .codeCI
 
 theorem exact_false_of_reported {p : Params} {cp cs : Bool} {t : Tok} {idx : Int} {a : Action}
     (ht : TokOk p t) (h : checkForCaseViolation E p cp cs t.val idx = .ok (some a)) : t.exact = false := by
   have hs := check_not_skipped h
   unfold Tok.exact
-  rw [isExact_split]
-  have hb : (t.val.head? == some '\\') = false := by
-    have := ht.notExtended
-    cases hh : t.val.head? with
-    | none => rfl
-    | some c =>
-      rw [hh] at this
-      simp only [ne_eq, Option.some.injEq] at this
-      simp [this]
-  rw [hb, Bool.or_false]
+  rw [isExact_eq_skip]
   cases hd : doesNotContainAnyAlpha t.val with
   | false => rfl
   | true =>
@@ -353,9 +365,39 @@ theorem Consistent.fix_shape {e : Str} {l r : List Tok} (h : Consistent.fixV (.o
     obtain ⟨rfl, _⟩ := pyIdx_ofNat _ _ 0 hk'
     exact ⟨t, hkt, hr⟩
 
+/-- the repaired value choices leave literals and extended identifiers alone -/
+theorem Consistent.expectedFirst_skip {ids : List Str} {v : Str} (h : doesNotContainAnyAlpha v = true) :
+    Consistent.expectedFirst E ids v = none := by
+  unfold Consistent.expectedFirst
+  rw [if_pos h]
+
+theorem Consistent.expectedMap_skip {ids : List Str} {v : Str} (h : doesNotContainAnyAlpha v = true) :
+    Consistent.expectedMap E ids v = .ok none := by
+  unfold Consistent.expectedMap
+  rw [if_pos h]
+
+theorem Consistent.expectedFirst_not_skipped {ids : List Str} {v e : Str}
+    (h : Consistent.expectedFirst E ids v = some e) : doesNotContainAnyAlpha v = false := by
+  cases hs : doesNotContainAnyAlpha v with
+  | false => rfl
+  | true => rw [Consistent.expectedFirst_skip hs] at h; cases h
+
+theorem Consistent.expectedMap_not_skipped {ids : List Str} {v e : Str}
+    (h : Consistent.expectedMap E ids v = .ok (some e)) : doesNotContainAnyAlpha v = false := by
+  cases hs : doesNotContainAnyAlpha v with
+  | false => rfl
+  | true => rw [Consistent.expectedMap_skip hs] at h; cases h
+
+theorem exact_false_of_not_skip {t : Tok} (h : doesNotContainAnyAlpha t.val = false) : t.exact = false := by
+  unfold Tok.exact
+  rw [isExact_eq_skip, h]
+  rfl
+
 theorem Consistent.expectedFirst_le {ids : List Str} {v e : Str}
     (h : Consistent.expectedFirst E ids v = some e) : E.lowerS e = E.lowerS v ∧ e ∈ ids ∧ e ≠ v := by
+  have hs := Consistent.expectedFirst_not_skipped h
   unfold Consistent.expectedFirst at h
+  simp only [hs, Bool.false_eq_true, if_false] at h
   cases hf : ids.find? (fun i => E.lowerS i == E.lowerS v) with
   | none => simp [hf] at h
   | some i =>
@@ -368,7 +410,9 @@ theorem Consistent.expectedFirst_le {ids : List Str} {v e : Str}
 
 theorem Consistent.expectedMap_le {ids : List Str} {v e : Str}
     (h : Consistent.expectedMap E ids v = .ok (some e)) : E.lowerS e = E.lowerS v ∧ e ∈ ids := by
+  have hs := Consistent.expectedMap_not_skipped h
   unfold Consistent.expectedMap at h
+  simp only [hs, Bool.false_eq_true, if_false] at h
   split at h
   · cases hf : ids.reverse.find? (fun i => E.lowerS i == E.lowerS v) with
     | none => simp [hf] at h
@@ -380,9 +424,10 @@ theorem Consistent.expectedMap_le {ids : List Str} {v e : Str}
 
 /-- B-FULL (value part), consistent_token_case -/
 theorem Consistent.first_fix_caseOnly (T : CharWise E fold lc uc fc) (ids : List Str) (l r : List Tok)
-    (t : Tok) (e : Str) (h0 : l[0]? = some t) (hc : t.isCode = true) (hx : t.exact = false)
+    (t : Tok) (e : Str) (h0 : l[0]? = some t) (hc : t.isCode = true)
     (he : Consistent.expectedFirst E ids t.val = some e)
     (hf : Consistent.fixV (.ok (some e)) l = .ok r) : CaseOnly fold l r := by
+  have hx : t.exact = false := exact_false_of_not_skip (Consistent.expectedFirst_not_skipped he)
   obtain ⟨t', ht', rfl⟩ := Consistent.fix_shape hf
   rw [h0] at ht'; cases ht'
   have hl := (Consistent.expectedFirst_le he).1
@@ -391,9 +436,10 @@ theorem Consistent.first_fix_caseOnly (T : CharWise E fold lc uc fc) (ids : List
 
 /-- B-FULL (value part), consistent_interface_token_case / consistent_subprogram_parameter_token_case -/
 theorem Consistent.map_fix_caseOnly (T : CharWise E fold lc uc fc) (ids : List Str) (l r : List Tok)
-    (t : Tok) (e : Str) (h0 : l[0]? = some t) (hc : t.isCode = true) (hx : t.exact = false)
+    (t : Tok) (e : Str) (h0 : l[0]? = some t) (hc : t.isCode = true)
     (he : Consistent.expectedMap E ids t.val = .ok (some e))
     (hf : Consistent.fixV (.ok (some e)) l = .ok r) : CaseOnly fold l r := by
+  have hx : t.exact = false := exact_false_of_not_skip (Consistent.expectedMap_not_skipped he)
   obtain ⟨t', ht', rfl⟩ := Consistent.fix_shape hf
   rw [h0] at ht'; cases ht'
   have hl := (Consistent.expectedMap_le he).1
@@ -404,24 +450,31 @@ theorem Consistent.map_fix_caseOnly (T : CharWise E fold lc uc fc) (ids : List S
 theorem Consistent.expectedFirst_idem {ids : List Str} {v e : Str}
     (h : Consistent.expectedFirst E ids v = some e) : Consistent.expectedFirst E ids e = none := by
   obtain ⟨hl, _, _⟩ := Consistent.expectedFirst_le h
-  unfold Consistent.expectedFirst at h ⊢
-  rw [hl]
-  cases hf : ids.find? (fun i => E.lowerS i == E.lowerS v) with
-  | none => simp [hf] at h
-  | some i =>
-    simp only [hf] at h ⊢
-    by_cases hiv : (i == v) = true
-    · simp [hiv] at h
-    · simp only [hiv, Bool.false_eq_true, if_false, Option.some.injEq] at h
-      subst h
-      simp
+  have hs := Consistent.expectedFirst_not_skipped h
+  cases hse : doesNotContainAnyAlpha e with
+  | true => exact Consistent.expectedFirst_skip hse
+  | false =>
+    unfold Consistent.expectedFirst at h ⊢
+    simp only [hs, hse, Bool.false_eq_true, if_false] at h ⊢
+    rw [hl]
+    cases hf : ids.find? (fun i => E.lowerS i == E.lowerS v) with
+    | none => simp [hf] at h
+    | some i =>
+      simp only [hf] at h ⊢
+      by_cases hiv : (i == v) = true
+      · simp [hiv] at h
+      · simp only [hiv, Bool.false_eq_true, if_false, Option.some.injEq] at h
+        subst h
+        simp
 
 theorem Consistent.expectedMap_idem {ids : List Str} {v e : Str}
     (h : Consistent.expectedMap E ids v = .ok (some e)) : Consistent.expectedMap E ids e = .ok none := by
   obtain ⟨_, hm⟩ := Consistent.expectedMap_le h
   unfold Consistent.expectedMap
   have hc : ids.contains e = true := by simpa using hm
-  rw [if_neg (by rw [hc]; simp)]
+  cases hse : doesNotContainAnyAlpha e with
+  | true => rw [if_pos rfl]
+  | false => rw [if_neg (by simp), if_neg (by rw [hc]; simp)]
 
 end tok
 end Vsgm.Base.Case
